@@ -244,6 +244,42 @@ DenoteAddrPort(t) ==
     IF ~p.shape \/ p.port < 0 \/ a = Undef THEN Undef ELSE <<p.port>> \o a
 
 -----------------------------------------------------------------------------
+(* snet.UDPAddr: a full SCION address with an IP host and a port.  The canonical text is the AddrPort
+   form; the legacy forms  IA,[ip]:port  IA,ipv4:port  IA,ip  IA,[ip]  (port 0 when absent) are read
+   too.  The host of a UDPAddr is a net.IP, for which an IPv4-mapped IPv6 address IS the IPv4 address:
+   values are normalised accordingly.  A service host has no UDP address: such a text denotes nothing. *)
+Is4in6(h) == h[1] = 6 /\ Len(h) = 17 /\ (\A i \in 2..11 : h[i] = 0) /\ h[12] = 255 /\ h[13] = 255
+NormIP(h) == IF Is4in6(h) THEN <<4, h[14], h[15], h[16], h[17]>> ELSE h
+CountOf(t, c) == Len(SelectSeq(t, LAMBDA x : x = c))
+
+DenoteUDPLegacy(t) ==
+    LET c == FirstAt(t, Comma)
+        ia == IF c = 0 THEN Undef ELSE DenoteIA(SubSeq(t, 1, c - 1), FALSE, Colon)
+        r == IF c = 0 THEN <<>> ELSE Drop(t, c)
+        hp ==      \* <<port, ip>> or Undef
+          IF r = <<>> THEN Undef
+          ELSE IF r[1] = 91
+            THEN LET j == FirstAt(r, <<93>>)
+                     ip == IF j = 0 THEN Undef ELSE DenoteIP(SubSeq(r, 2, j - 1))
+                     after == IF j = 0 THEN <<>> ELSE Drop(r, j) IN
+                 IF ip = Undef THEN Undef
+                 ELSE IF after = <<>> THEN <<0, ip>>
+                 ELSE IF after[1] = 58 /\ DenoteDec16(Drop(after, 1)) >= 0 THEN <<DenoteDec16(Drop(after, 1)), ip>>
+                 ELSE Undef
+          ELSE IF CountOf(r, 58) = 1
+            THEN LET k == FirstAt(r, Colon)
+                     ip == DenoteIPv4(SubSeq(r, 1, k - 1))
+                     port == DenoteDec16(Drop(r, k)) IN
+                 IF ip = Undef \/ port < 0 THEN Undef ELSE <<port, ip>>
+          ELSE LET ip == DenoteIP(r) IN IF ip = Undef THEN Undef ELSE <<0, ip>> IN
+    IF ia = Undef \/ hp = Undef THEN Undef ELSE <<hp[1]>> \o ia \o NormIP(hp[2])
+
+DenoteUDPAddr(t) ==
+    LET d == DenoteAddrPort(t) IN
+    IF d # Undef THEN (IF d[6] \in {4, 6} THEN SubSeq(d, 1, 5) \o NormIP(Drop(d, 5)) ELSE Undef)
+    ELSE DenoteUDPLegacy(t)
+
+-----------------------------------------------------------------------------
 (* Dispatch by kind (the kinds the driver logs). *)
 Denote(kind, t, prefix, sep) ==
     CASE kind = "isd" -> DenoteISD(t, prefix)
@@ -253,6 +289,7 @@ Denote(kind, t, prefix, sep) ==
       [] kind = "host" -> DenoteHost(t)
       [] kind = "addr" -> DenoteAddr(t)
       [] kind = "addrport" -> DenoteAddrPort(t)
+      [] kind = "udpaddr" -> DenoteUDPAddr(t)
 
 \* the values the property quantifies over ("every ISD, AS number, ISD-AS, service address, host
 \* address and full SCION address"): undefined service numbers and the none-host are not addresses
